@@ -1,6 +1,6 @@
 (* C11 - deletion removes exactly the requested objects; repack reclaims their space.  Statements only (partial). *)
 From Coq Require Import List ZArith NArith.
-From DOS Require Import Base Store StoreProofs StoreLemmas MonoStep Programs ProgramsProofs PackProofs MaintProofs.
+From DOS Require Import Base Store StoreProofs StoreLemmas MonoStep Programs ProgramsProofs PackProofs MaintProofs RepackProofs.
 Import ListNotations.
 
 Section C11.
@@ -20,8 +20,35 @@ Proof.
   pose proof (delete_always H inflate w l ks A B (length (p_delete w ks))) as (X & Y). rewrite firstn_all in X, Y.
   split; [exact X|]. split; [|exact Y]. intros k Hk. exact (delete_removes_requested H inflate w l ks k A B Hk).
 Qed.
+
+(* repack_pack(id) as a program, ALL worlds / live rows / (re)compressed blobs: afterwards the pack file is exactly the concatenation of
+   the live objects' stored bytes (no unreferenced byte, in particular none of a deleted object), fully synced; the temporary pack is
+   gone; every other pack and the loose folder are untouched; the index holds the same keys, re-offset *)
+Theorem C11_repack_reclaims : forall w l id objs,
+  Inv H inflate w -> pending l = [] -> id <> REPACK -> get_pack w REPACK = None ->
+  Forall (robj_ok inflate w id) objs ->
+  (forall r, In r (db w) -> rpack r = id -> In (rkey r) (map okey objs)) ->
+  rows_of_pack (db w) id <> [] ->
+  exists w' l', run_events (w, l) (p_repack_one w id objs) = (w', l') /\
+    get_pack w' id = Some (mkFile (concat (map oblob objs)) (concat (map oblob objs))) /\ get_pack w' REPACK = None /\
+    map rkey (db w') = map rkey (db w) /\
+    (forall j, j <> id -> j <> REPACK -> get_pack w' j = get_pack w j) /\ loose w' = loose w.
+Proof.
+  intros w l id objs A B C D E F G.
+  destruct (repack_final_state w id objs C D l B G) as (w' & l' & R & P1 & P2 & P3 & P4 & P5).
+  exists w', l'. split; [exact R|]. split; [exact P1|]. split; [exact P2|]. split; [|split; [exact P4|exact P5]].
+  rewrite P3. apply (keys_d2 H inflate w id objs A E F).
+Qed.
+
+(* a pack without live rows is removed (and nothing else changes what any key reads back as) *)
+Theorem C11_repack_removes_empty_pack : forall w l id fs m,
+  Inv H inflate w -> rows_of_pack (db w) id = [] ->
+  Good H inflate w fs (fst (run_events (w, l) (firstn m (p_repack_one w id [])))).
+Proof. intros w l id fs m A B. exact (repack_empty_always H inflate H_inj w l id fs A B m). Qed.
 End C11.
 Print Assumptions C11_delete_program.
+Print Assumptions C11_repack_reclaims.
+Print Assumptions C11_repack_removes_empty_pack.
 
 (* the DELETE statement removes exactly the rows whose key was requested, and nothing else *)
 Theorem C11_delete_exactly_requested : forall d ks r, In r (apply_sql d (SDelete ks)) <-> In r d /\ ~ In (rkey r) ks.
